@@ -12,7 +12,7 @@ TabB == [ex |-> 0, xid |-> "binance_spot",
 TabK == [ex |-> 1, xid |-> "kraken",
          assets |-> [btc |-> 3, eth |-> 4, usdt |-> 5], insts |-> [BTCUSDT |-> 2, ETHUSDT |-> 3]]
 
-E(kd, nm, xok, early, d) == [k |-> kd, nm |-> nm, xok |-> xok, early |-> early, d |-> d, v |-> 0]
+E(kd, nm, xok, ea, d) == [k |-> kd, nm |-> nm, xok |-> xok, early |-> ea, d |-> d, v |-> 0]
 
 RECURSIVE SeqsUpTo(_, _)
 SeqsUpTo(S, n) == IF n = 0 THEN {<<>>}
@@ -23,12 +23,13 @@ SeqsUpTo(S, n) == IF n = 0 THEN {<<>>}
 Bodies(shapes, n) == {b \in SeqsUpTo(shapes, n) : \A i \in 1..(Len(b) - 1) : b[i + 1].early => b[i].early}
 EarlyOnly(shapes, n) == {b \in Bodies(shapes, n) : \A i \in 1..Len(b) : b[i].early}
 
-OutcomeShapes(shapes, ls, eds, maxb) ==
-         {[r |-> "sfail", ls |-> l, ln |-> 0, ed |-> 0, body |-> <<>>] : l \in ls}
-    \cup {[r |-> rr, ls |-> 0, ln |-> l, ed |-> 0, body |-> b] :
-              rr \in {"nfail", "nbad"}, l \in ls, b \in EarlyOnly(shapes, Min(maxb, 1))}
+\* lps: the pairs <<ls, ln>> of call latencies of a successful attempt; fl: the latency of a failing call
+OutcomeShapes(shapes, lps, fl, eds, maxb) ==
+         {[r |-> "sfail", ls |-> fl, ln |-> 0, ed |-> 0, body |-> <<>>]}
+    \cup {[r |-> rr, ls |-> 0, ln |-> fl, ed |-> 0, body |-> b] :
+              rr \in {"nfail", "nbad"}, b \in EarlyOnly(shapes, Min(maxb, 1))}
     \cup {[r |-> "ok", ls |-> p[1], ln |-> p[2], ed |-> e, body |-> b] :
-              p \in {<<0, 0>>} \cup {<<l, 0>> : l \in ls} \cup {<<0, l>> : l \in ls}, e \in eds, b \in Bodies(shapes, maxb)}
+              p \in lps, e \in eds, b \in Bodies(shapes, maxb)}
 
 RECURSIVE ShapesWith(_, _, _)      \* n outcomes and m elements left
 ShapesWith(O, n, m) ==
@@ -44,8 +45,8 @@ Numbered(s) == [j \in 1..Len(s) |->
                   [s[j] EXCEPT !.body = [i \in 1..Len(s[j].body) |->
                       [s[j].body[i] EXCEPT !.v = SumLen(s, j - 1) + i]]]]
 
-ScriptsOf(shapes, ls, eds, maxo, maxb, maxe) ==
-    {Numbered(s) : s \in ShapesWith(OutcomeShapes(shapes, ls, eds, maxb), maxo, maxe) \ {<<>>}}
+ScriptsOf(shapes, lps, fl, eds, maxo, maxb, maxe) ==
+    {Numbered(s) : s \in ShapesWith(OutcomeShapes(shapes, lps, fl, eds, maxb), maxo, maxe) \ {<<>>}}
 
 ReqListsOf(ats, ds, n) == SeqsUpTo({[at |-> a, d |-> d] : a \in ats, d \in ds}, n)
 
@@ -62,28 +63,21 @@ BOwnEarly == E("bal", "sol", TRUE, TRUE, 0)
 BForLate  == E("trade", "ETHUSDT", TRUE, FALSE, 0)
 BForEarly == E("bal", "eth", TRUE, TRUE, 0)
 
-\* ---- exhaustive model, quick: rich scripts without latencies, one request
+Rq(a, d) == [at |-> a, d |-> d]
+\* ---- exhaustive model, quick: rich scripts without latencies, a request that times out while the link waits
 PolA      == {[b0 |-> 100, mult |-> 3, max |-> 500]}
-PolA2     == {[b0 |-> 100, mult |-> 3, max |-> 500], [b0 |-> 50, mult |-> 1, max |-> 50]}
 PolT      == {[b0 |-> 10, mult |-> 2, max |-> 15]}
-ScriptsA  == ScriptsOf({OwnEarly, OwnLate, ForLate, ForEarly}, {0}, {0}, 3, 2, 2)
-ReqsA     == ReqListsOf({0, 150}, {0, -1}, 1)
+ScriptsA  == ScriptsOf({OwnEarly, OwnLate, ForLate}, {<<0, 0>>}, 0, {0}, 3, 2, 2)
+ReqsA     == {<<>>, <<Rq(0, -1)>>}
 \* ---- exhaustive model, quick: latencies, silences, slack, two requests; short scripts
-ScriptsT  == ScriptsOf({OwnEarly, OwnLate3, XidLate}, {7}, {0, 3}, 2, 1, 1)
-ReqsT     == ReqListsOf({0, 8}, {4, -1}, 2)
-\* ---- thorough
-ScriptsA2 == ScriptsOf({OwnEarly, OwnLate, ForLate, ForEarly, XidLate}, {0}, {0}, 4, 2, 3)
-ScriptsT2 == ScriptsOf({OwnEarly, OwnLate3, XidLate, ForLate3}, {7}, {0, 3}, 3, 2, 2)
-ReqsT2    == ReqListsOf({0, 8, 30}, {4, -1}, 2)
-\* ---- scenario generation (only the initial states are enumerated)
-ScriptsG  == ScriptsOf({OwnEarly, OwnLate, OwnLate3, ForLate, ForEarly, XidLate, BOwnEarly, BForLate, BForEarly},
-                       {7}, {0, 3}, 3, 2, 2)
-ReqsG     == ReqListsOf({0, 8, 150}, {4, -1}, 2)
-ScriptsG2 == ScriptsOf({OwnEarly, OwnLate, OwnLate3, ForLate, ForEarly, XidLate, BOwnEarly, BForLate, BForEarly},
-                       {7}, {0, 3}, 4, 2, 3)
+ScriptsT  == ScriptsOf({OwnEarly, OwnLate3, ForLate3}, {<<7, 0>>, <<0, 7>>}, 7, {3}, 2, 1, 1)
+ReqsT     == {<<>>, <<Rq(0, 4)>>, <<Rq(0, 4), Rq(8, 4)>>, <<Rq(0, -1), Rq(0, 4)>>}
 TabsBoth  == {TabB, TabK}
 TabsK     == {TabK}
-ClientsOK == {"mock", "same"}
-ClientsAll == {"mock", "same", "other"}
+\* the client's constant ExchangeId: mock goes with every map, any other must be the map's own
+ClientsOK == {"mock", "kraken"}
+ClientsAll == {"mock", "kraken", "binance_spot"}
+ClientsA  == {"kraken", "binance_spot"}
+ClientsT  == {"mock"}
 RInsAll   == {"BTCUSDT"}
 =============================================================================
